@@ -206,6 +206,46 @@ def maximal_chains(e: ast.AST):
         stack.extend(reversed(list(ast.iter_child_nodes(n))))
 
 
+def _split_calls(expr: ast.AST, call_filter):
+    """If `expr` contains a call the filter understands, return the list of
+    sub-expressions that together determine expr's value (the call replaced by
+    the arguments that matter); else None."""
+    target = None
+    for x in walk_local(expr):
+        if isinstance(x, ast.Call):
+            r = call_filter(x)
+            if r is not None:
+                target = (x, r)
+                break
+    if target is None:
+        return None
+    call, relevant = target
+    parts = list(relevant)
+    # everything in expr outside that call still counts
+    class Strip(ast.NodeTransformer):
+        def visit_Call(self, node):
+            if node is call:
+                return ast.Constant(value=0)
+            return self.generic_visit(node)
+    import copy
+    # identity is lost by deepcopy, so strip on the original via a shallow rebuild
+    def rebuild(n):
+        if n is call:
+            return ast.Constant(value=0)
+        if not isinstance(n, ast.AST):
+            return n
+        new = copy.copy(n)
+        for f, v in ast.iter_fields(n):
+            if isinstance(v, list):
+                setattr(new, f, [rebuild(i) for i in v])
+            elif isinstance(v, ast.AST):
+                setattr(new, f, rebuild(v))
+        return new
+    if expr is not call:
+        parts.append(rebuild(expr))
+    return parts
+
+
 def names_loaded(e: ast.AST) -> Set[str]:
     out = set()
     for x in walk_local(e):
@@ -215,11 +255,18 @@ def names_loaded(e: ast.AST) -> Set[str]:
 
 
 def depends_on(du: DefUse, expr: ast.AST, at: int, sources: Set[str],
-               _seen: Optional[Set] = None, through_attrs: bool = True) -> bool:
+               _seen: Optional[Set] = None, through_attrs: bool = True,
+               call_filter=None) -> bool:
     """Does the value of `expr` evaluated at CFG node `at` data-depend on any
     of the named locations (parameters, names, dotted chains)?  Follows local
     definitions transitively (flow-sensitive)."""
     seen = _seen if _seen is not None else set()
+    if call_filter is not None:
+        # calls the filter understands contribute only the sub-expressions it names
+        parts = _split_calls(expr, call_filter)
+        if parts is not None:
+            return any(depends_on(du, pexpr, at, sources, seen, through_attrs, call_filter)
+                       for pexpr in parts)
     for x in maximal_chains(expr):
         if True:
             d = dotted(x)
@@ -238,7 +285,8 @@ def depends_on(du: DefUse, expr: ast.AST, at: int, sources: Set[str],
                     seen.add(df.id)
                     if df.value is None:
                         continue
-                    if depends_on(du, df.value, df.node, sources, seen, through_attrs):
+                    if depends_on(du, df.value, df.node, sources, seen, through_attrs,
+                                  call_filter):
                         return True
                     if df.sel and df.sel[0][0] == "aug":
                         # x += v depends on previous x too
@@ -246,7 +294,7 @@ def depends_on(du: DefUse, expr: ast.AST, at: int, sources: Set[str],
                             if prev.id not in seen and prev.value is not None:
                                 seen.add(prev.id)
                                 if depends_on(du, prev.value, prev.node, sources, seen,
-                                              through_attrs):
+                                              through_attrs, call_filter):
                                     return True
     return False
 
